@@ -44,10 +44,7 @@ type MakeOctets struct {
 // Call the function with the arguments provided.
 func (f *MakeOctets) Call(s *slip.Scope, args slip.List, depth int) slip.Object {
 	slip.CheckArgCount(s, depth, f, args, 1, 2)
-	size, ok := args[0].(slip.Fixnum)
-	if !ok || size < 0 {
-		slip.TypePanic(s, depth, "size", args[0], "fixnum")
-	}
+	size := slip.CheckDimension(s, depth, "size", args[0])
 	ba := make([]byte, size)
 	if 1 < len(args) {
 		b := byte(slip.ToOctet(args[1]).(slip.Octet))
